@@ -12,8 +12,8 @@ def u32(x): return struct.pack('>I', x & 0xFFFFFFFF)
 
 
 OP = dict(NOP=0, PUSH_BYTE=1, NEXT=25, PUT_COPY=30, INSERT=31, DELETE=32, ASSOC=33, CNTXT_ITEM=34, ATTR_SET=35, ATTR_ADD=36,
-          PUSH_SLOT_ATTR=41, PUSH_GLYPH_ATTR_OBS=42, POP_RET=48, RET_ZERO=49, RET_TRUE=50, PUT_SUBS=56, PUT_GLYPH=59, IATTR_SET=51,
-          EQUAL=17, PUSH_GLYPH_METRIC=43)
+          PUSH_SLOT_ATTR=40, PUSH_GLYPH_ATTR_OBS=41, POP_RET=48, RET_ZERO=49, RET_TRUE=50, PUT_SUBS=56, PUT_GLYPH=59, IATTR_SET=51,
+          EQUAL=19, PUSH_GLYPH_METRIC=42)
 
 NG = 10            # glyphs 0..9 ; cmap 'a'..'i' -> 1..9
 NATTR = 8
@@ -112,7 +112,7 @@ def silf(passes_fn, npasses, isubst, ipos, ijust, classes, nlinear, dirn=0, ibid
     hdr = (u32(0x00030000) + u16(0) + u16(0) + u16(NG - 1) + u16(0) + u16(0) + u8(npasses) + u8(isubst) + u8(ipos) + u8(ijust) + u8(ibidi) + u8(0)
            + u8(2) + u8(2) + u8(1) + u8(2) + u8(3) + u8(4) + u8(0)   # maxPre,maxPost, aPseudo=1,aBreak=2,aBidi=3,aMirror=4,aPassBits=0
            + u8(0)                                                # numJLevels
-           + u16(0) + u8(2) + u8(0) + u8(dirn) + u8(0) + b'\0' * 3 + u8(0) + u8(0) + u8(0) + u16(0))
+           + u16(0) + u8(2) + u8(0) + u8(dirn + 1) + u8(0) + b'\0' * 3 + u8(0) + u8(0) + u8(0) + u16(0))   # direction byte: Silf::readGraphite stores byte - 1
     fixed_after = 4 * (npasses + 1) + 8
     passes_start = len(hdr) + fixed_after + len(cm)
     pbytes = []
@@ -188,11 +188,14 @@ def trie_fsm(patterns, ncols):
 
 
 def gen_constraint(r, pre, length):
-    """a short constraint: compares a glyph attribute / constant; always loader-valid (one value left on the stack)"""
+    """a short constraint (always loader-valid, one value left on the stack): a constant, a comparison of constants, or a
+    test of the break-weight glyph attribute (attribute 2) of the slot the constraint is run on"""
     k = r.random()
-    if k < 0.5:
+    if k < 0.3:
         return bytes([OP['PUSH_BYTE'], r.choice([0, 1, 1, 1]), OP['POP_RET']])
-    return bytes([OP['PUSH_BYTE'], r.randrange(3), OP['PUSH_BYTE'], r.randrange(3), OP['EQUAL'], OP['POP_RET']])
+    if k < 0.5:
+        return bytes([OP['PUSH_BYTE'], r.randrange(3), OP['PUSH_BYTE'], r.randrange(3), OP['EQUAL'], OP['POP_RET']])
+    return bytes([OP['PUSH_GLYPH_ATTR_OBS'], 2, 0, OP['PUSH_BYTE'], r.choice([0, 10, 20, 30, 246]), OP['EQUAL'], OP['POP_RET']])
 
 
 def gen_rules(r, positioning, ncols, allow=None, max_rules=5, posallow=None):
@@ -226,27 +229,59 @@ NCLASSES = 4
 CLASSES = [[2], [1], [5, 6], [9]]
 
 
-def gen_font(r, npasses=None, dirn=None, maxloop=None, posallow=None, allow=None):
-    """a random font: 1..3 passes (substitution then positioning), each with 1..5 rules over the glyph columns"""
+GATTR = None
+
+
+def gen_font(r, npasses=None, dirn=None, maxloop=None, posallow=None, allow=None, constraints=True, max_rules=5, ipos=None):
+    """a random font: 1..3 passes (substitution then positioning), each with 1..5 rules over the glyph columns.
+    Returns (sfnt bytes, description); description["model"] is the same font in the line format of `grdriver shape`."""
     np_ = npasses or r.randrange(1, 4)
     isubst = 0
-    ipos = r.randrange(0, np_ + 1)
+    ipos = r.randrange(0, np_ + 1) if ipos is None else ipos
     ncols = r.choice([2, 3, 9])
     cols = [(g, g, (g - 1) % ncols) for g in range(1, NG)]
     specs = []
     for i in range(np_):
-        pre, rules = gen_rules(r, i >= ipos, ncols, allow=allow, posallow=posallow)
-        specs.append((pre, rules, maxloop or r.choice([1, 2, 5, 5, 20])))
+        pre, rules = gen_rules(r, i >= ipos, ncols, allow=allow, posallow=posallow, max_rules=max_rules)
+        if not constraints:
+            rules = [(ru[0], ru[1], b'', ru[3], ru[4], ru[5]) for ru in rules]
+        trans, nst, ntr, nsu, rm = trie_fsm([ru[4] for ru in rules], ncols)
+        specs.append(dict(pre=pre, rules=rules, ml=maxloop or r.choice([1, 2, 5, 5, 20]), trans=trans, nst=nst, ntr=ntr, nsu=nsu, rm=rm))
 
     def passes_fn(i, base):
-        pre, rules, ml = specs[i]
-        trans, nst, ntr, nsu, rm = trie_fsm([ru[4] for ru in rules], ncols)
-        return mk_pass([ru[:4] for ru in rules], ncols, cols, trans, nst, ntr, nsu, rm, [0], pre, pre, base, maxloop=ml)
+        sp = specs[i]
+        return mk_pass([ru[:4] for ru in sp["rules"]], ncols, cols, sp["trans"], sp["nst"], sp["ntr"], sp["nsu"], sp["rm"], [0], sp["pre"], sp["pre"], base, maxloop=sp["ml"])
     d = r.choice([0, 0, 1]) if dirn is None else dirn
-    data = build(passes_fn, np_, isubst, ipos, CLASSES, dirn=d, r=r)
-    desc = {"passes": np_, "ipos": ipos, "ncols": ncols, "dir": d,
-            "rules": [[{"sort": ru[0], "pre": ru[1], "con": ru[2].hex(), "act": ru[3].hex(), "pat": list(ru[4]), "kinds": ru[5]} for ru in s[1]] for s in specs]}
+    gl = r.__class__(r.random())          # glyph attributes come from their own stream so that the model line can repeat them
+    gattr = [[0, 0, gl.choice([0, 0, 10, 20, -10, 30]), 0] for _ in range(NG)]
+    data = build_with(passes_fn, np_, isubst, ipos, CLASSES, dirn=d, gattr=gattr)
+    colarr = [0xFFFF] + [(g - 1) % ncols for g in range(1, NG)]
+    pm = []
+    for sp in specs:
+        pm.append("/".join([
+            "%d,%d,%d,%d,%d,%d,%d" % (sp["ml"], sp["pre"], sp["pre"], ncols, sp["ntr"], sp["nst"], sp["nsu"]),
+            ",".join(map(str, colarr)), "0",
+            ";".join(",".join(map(str, row)) for row in sp["trans"]) or "-",
+            ";".join((",".join(map(str, l)) or "-") for l in sp["rm"]) or "-",
+            ";".join("%d,%d,%s,%s" % (ru[0], ru[1], ru[2].hex() or "-", ru[3].hex() or "-") for ru in sp["rules"])]))
+    model = "ipos=%d classes=%s gattr=%s passes=%s" % (ipos, ";".join(".".join(map(str, c)) for c in CLASSES),
+                                                      ";".join(".".join(map(str, g)) for g in gattr), "|".join(pm))
+    desc = {"passes": np_, "ipos": ipos, "ncols": ncols, "dir": d, "model": model,
+            "rules": [[{"sort": ru[0], "pre": ru[1], "con": ru[2].hex(), "act": ru[3].hex(), "pat": list(ru[4]), "kinds": ru[5]} for ru in sp["rules"]] for sp in specs]}
     return data, desc
+
+
+def build_with(passes_fn, npasses, isubst, ipos, classes, dirn=0, gattr=None, upem=1000):
+    glat = u32(0x00010000)
+    locs = []
+    for g in range(NG):
+        locs.append(len(glat))
+        row = gattr[g] if gattr else [0, 0, 0, 0]
+        glat += u8(0) + u8(len(row)) + b''.join(u16(v) for v in row)
+    locs.append(len(glat))
+    gloc = u32(0x00010000) + u16(0) + u16(NATTR) + b''.join(u16(l) for l in locs)
+    return sfnt({'head': head(upem), 'hhea': hhea(), 'hmtx': hmtx(), 'maxp': maxp(), 'cmap': cmap(), 'Gloc': gloc, 'Glat': glat, 'Feat': feat(), 'Sill': sill(),
+                 'Silf': silf(passes_fn, npasses, isubst, ipos, npasses, classes, len(classes), dirn)})
 
 
 def gen_text(r, maxlen=12):
